@@ -442,6 +442,26 @@ CORPUS = [
     "from Reduino.Communication import SerialMonitor\nmon = SerialMonitor(9600)\nzs = [1.5, 2.5]\nmon.write(zs[0])\ndef g(*args):\n    return 1\nmon.write(g(1))\nfor i in range(2, 9, 3):\n    pass\n",
 ]
 
+# one identifier in every role: a later script that re-uses a name of an earlier script for another kind of object must not see the earlier role
+_IMP = "from Reduino.Actuators import Led, RGBLed, Buzzer, Servo, DCMotor\nfrom Reduino.Sensors import Button, Potentiometer, Ultrasonic\nfrom Reduino.Displays import LCD\nfrom Reduino.Communication import SerialMonitor\n"
+ROLE_SCRIPTS = [_IMP + body for body in (
+    "dev = Led(5)\ndev.on()\nif dev.get_state():\n    dev.off()\nb = dev.get_brightness()\n",
+    "dev = Buzzer(8)\ndev.beep()\nif dev.get_state():\n    dev.stop()\n",
+    "dev = RGBLed(9, 10, 11)\ndev.set_color(1, 2, 3)\ndev.off()\n",
+    "dev = Servo(9)\ndev.write(90)\na = dev.read()\n",
+    "dev = DCMotor(5, 6, 9)\ndev.set_speed(0.5)\ns = dev.get_speed()\ndev.stop()\n",
+    "dev = Potentiometer('A0')\nv = dev.read()\n",
+    "dev = Button(2)\nx = 0\nif dev.is_pressed():\n    x = 1\n",
+    "dev = Ultrasonic(2, 3)\nd = dev.measure_distance()\n",
+    "dev = SerialMonitor(9600)\ndev.write('a')\nr = dev.read()\n",
+    "dev = LCD(i2c_addr=39)\ndev.write(0, 0, 'a')\ndev.clear()\n",
+    "dev = 5\nx = dev + 1\n",
+    "dev = [1, 2]\nn = len(dev)\ndev.append(3)\n",
+    "def dev():\n    return 1\nx = dev()\n",
+    "dev = Buzzer(8)\nb = dev.get_brightness()\n",
+    "dev = Led(5)\nr = dev.read()\n",
+)]
+
 REPLAY_PROG = r'''
 import sys, json, hashlib
 sys.path.insert(0, sys.argv[1])
@@ -462,6 +482,7 @@ print(json.dumps(out))
 def replay_differ(tier, seed, out):
     t0 = time.time()
     src = os.path.join(os.environ.get("REDUINO_REPO", "/repo"), "src")
+    corpus = CORPUS + ROLE_SCRIPTS
     n = len(CORPUS)
     seeds = [0, 1, 2, 3, 4, 5, 6, 7] if tier != "thorough" else list(range(24))
     if tier == "state-only":
@@ -472,11 +493,13 @@ def replay_differ(tier, seed, out):
     diffs = []
     runs = 0
     # every script also as the very first call of a fresh process (state consumed by earlier calls must not matter)
-    singles = [[i] for i in range(n)] + [[i, i] for i in (6, 7, 8) if i < n]
+    singles = [[i] for i in range(len(corpus))] + [[i, i] for i in (6, 7, 8) if i < n]
+    roles = list(range(n, len(corpus)))
+    histories.append([k for a in roles for b in roles if a != b for k in (a, b)])      # every ordered pair of roles of one identifier
     for hs in seeds:
-        for hi, order in enumerate((histories + singles) if hs == 0 else histories if hs < 3 else histories[:1]):
+        for hi, order in enumerate((singles + histories) if hs == 0 else histories if hs < 3 else histories[:1]):
             env = dict(os.environ, PYTHONHASHSEED=str(hs))
-            r = subprocess.run(["/venv/bin/python", "-c", REPLAY_PROG, src, json.dumps(CORPUS), json.dumps(order)],
+            r = subprocess.run(["/venv/bin/python", "-c", REPLAY_PROG, src, json.dumps(corpus), json.dumps(order)],
                                capture_output=True, text=True, env=env, timeout=300)
             runs += 1
             if r.returncode != 0:
@@ -486,9 +509,9 @@ def replay_differ(tier, seed, out):
                 if i not in ref:
                     ref[i] = (h, hs, order)
                 elif ref[i][0] != h:
-                    diffs.append({"script": i, "hashseed": hs, "history": order, "sha": h,
-                                  "reference": {"sha": ref[i][0], "hashseed": ref[i][1], "history": ref[i][2]},
-                                  "source": CORPUS[i][:300]})
+                    diffs.append({"script": i, "hashseed": hs, "history": order[:40], "sha": h,
+                                  "reference": {"sha": ref[i][0], "hashseed": ref[i][1], "history": ref[i][2][:40]},
+                                  "source": corpus[i][-300:]})
     PROPERTY["bounded"] = [{"check": "replay differ", "bound": f"{n} scripts x {len(seeds)} hash seeds x up to {len(histories)} call histories "
                             f"({runs} fresh processes)", "differences": len(diffs)}]
     out.append({"name": "C10/bounded/replay-differ", "status": "discharged" if not diffs else "sat", "backend": "bounded-native",
